@@ -75,7 +75,11 @@ def check_C06(ctx):
     def wiring():
         im = pdb.trait_impl("core::convert::From", HRANK, ["u16"])
         kf = im["items"]["from"]
-        r = ctx.summ(kf, [("v", v)]).ret
+        smf = ctx.summ(kf, [("v", v)])
+        r = smf.ret
+        # the conversion (with determine_name / determine_class inside it) is total over all 65536 values
+        from .cards import total_over_scalar
+        total_over_scalar(ctx, "C06.no-panic.from", smf, "v", "u16", [0, 1, 10, 7462, 7463, 32767, 32768, 65535])
         fields = [f["name"] for f in pdb.adt(HRANK)["variants"][0]["fields"]]
         want = {"value": v, "name": dn, "class": dc}
         for i, fname in enumerate(fields):
@@ -95,7 +99,9 @@ def check_C06(ctx):
             rep.ob("C06.is_invalid", nv["name"], cval(b) == (1 if nv["name"] == "Invalid" else 0), "is_invalid() on a rank named %s gives %s" % (nv["name"], cval(b)), pdb.where(ki))
         # self-consistency of every converted rank
         kv = pdb.inherent(HRANK, "is_a_valid_hand_rank")
-        res = ctx.summ(kv, [("r", r)]).ret
+        smv = ctx.summ(kv, [("r", r)])
+        total_over_scalar(ctx, "C06.no-panic.is_a_valid_hand_rank", smv, "v", "u16", [0, 1, 10, 7462, 7463, 32767, 32768, 65535])
+        res = smv.ret
         if res is TRUE:
             rep.ob("C06.self-consistent", "all values", True)
         else:
@@ -174,14 +180,19 @@ def check_C07(ctx):
         ord_im = pdb.trait_impl("core::cmp::Ord", HRANK)
         extra_ord = sorted(set(ord_im["items"]) - {"cmp"})
         kcmp = ord_im["items"]["cmp"]
-        dag = ctx.summ(kcmp, [("r", ra), ("r", rb)]).ret
+        smc = ctx.summ(kcmp, [("r", ra), ("r", rb)])
+        dag = smc.ret
         # the comparison may depend on (a, b) only through comparisons with constants and with each other
         consts = set()
         nonorder = []
         parents = {}
-        for x in walk(dag):
-            for ch in children(x):
-                parents.setdefault(id(ch), []).append(x)
+        seen_ = set()
+        # (panic sites of cmp are part of what is tabulated: their constants split the cells too)
+        roots = [dag] + [c for o in smc.obligations if not (o.cond[0] == "c" and o.cond[1]) for c in (o.cond,) + tuple(o.pc)]
+        for root in roots:
+            for x in walk(root, seen_):
+                for ch in children(x):
+                    parents.setdefault(id(ch), []).append(x)
         for at in (a, b):
             for p_ in parents.get(id(at), []):
                 if p_[0] == "bin" and p_[1] in ("Eq", "Ne", "Lt", "Le", "Gt", "Ge"):
@@ -298,7 +309,8 @@ def check_C07(ctx):
             rep.ob("C07.equality", "hand-written PartialEq", badeq is None, "==/!= on converted ranks is not (in)equality of their values, e.g. from(%s) vs from(%s)" % (badeq or (0, 0)), pdb.where(im2["items"]["eq"]))
         else:
             rep.ob("C07.equality", "HandRank: PartialEq", False, "HandRank has no PartialEq impl")
-    ctx.guard("C07.cmp", cmp_table)
+    with ctx.total("C07.no-panic"):
+        ctx.guard("C07.cmp", cmp_table)
 
     def enums():
         for adt_name, expected in ((HNAME, oracle.CATEGORIES + ["Invalid"]), (HCLASS, oracle.class_name_order())):
@@ -755,6 +767,44 @@ def check_peel(ctx, rule):
         rep.ob(rule, "state/%d" % k, o == exp_o, "peel when %s: the set afterwards is not the set %s" % (what, "minus that card" if k < 52 else "unchanged"), pdb.where(key))
         n += 1
     rep.floor(rule, n, 53)
+    # peel never panics: each panic site, under each of the 53 abstract cases, is unreachable or holds (bit
+    # abstraction); where the abstraction is imprecise, by folding over structured members of the case
+    from .base import panic_node
+    for o in sm.obligations:
+        if o.cond[0] == "c" and o.cond[1]:
+            continue
+        v = panic_node([o])
+        badk = None
+        weak = 0
+        for k in range(53):
+            bits = [("b", "s", i) if i >= 52 else (1 if (k < 52 and i == 51 - k) else (0 if (k == 52 or i > 51 - k) else ("b", "s", i))) for i in range(64)]
+            try:
+                b0 = BitVec(pdb, atom_bits={"s": bits}).bv(v)[0]
+            except Uncertified:
+                b0 = None
+            if b0 == 0:
+                continue
+            if b0 == 1:
+                badk = (k, (1 << (51 - k)) if k < 52 else 0)
+                break
+            weak += 1
+            import random
+            rnd = random.Random(ctx.rep.seed * 1000 + k)
+            lowmask = (1 << (51 - k)) - 1 if k < 52 else 0
+            for lw in [0, lowmask, lowmask & 0x5555555555555555] + [rnd.getrandbits(64) & lowmask for _ in range(4)]:
+                for hg in (0, 0xFFF << 52, 1 << 63):
+                    val = hg | lw | ((1 << (51 - k)) if k < 52 else 0)
+                    try:
+                        if cval(ctx.fold(v, {"s": val})):
+                            badk = (k, val)
+                    except (IndexError, ZeroDivisionError):
+                        badk = (k, val)
+            if badk:
+                break
+        rep.ob(rule + ".no-panic", "%s %s L%s" % (short(o.fn), o.kind, o.line), badk is None,
+               "peel panics (%s, line %s) on the set %#x (first member: deck card %s)" % (o.kind, o.line, badk[1] if badk else 0, badk[0] if badk and badk[0] < 52 else "none"), "%s line %s" % (pdb.where(o.fn), o.line))
+        if weak and badk is None:
+            rep.note("%s.no-panic: site %s L%s decided by folding over structured sets in %d of 53 abstract cases" % (rule, o.kind, o.line, weak))
     if ctx.tier == "thorough":
         import random
         rnd = random.Random(ctx.rep.seed + 17)
@@ -877,6 +927,19 @@ def check_C15(ctx):
             rep.extra["exhaustive"] = False
         rep.ob("C15.is_valid", "formula", okv, "is_valid is not `non-empty and no bits above the 52 card bits`: %s" % describe_formula(f), pdb.where(key))
     ctx.guard("C15.ops", ops)
+
+    def ops_total():
+        from .base import panic_free
+        s, c = atom("s", "u64"), atom("c", "u64")
+        sets = sorted(structured_sets(rep.seed))
+        pairs = [{"s": a_, "c": b_} for a_, b_ in structured_set_pairs(rep.seed)]
+        for nm, params, envs in (("fold_in", [("r", s), ("v", c)], pairs), ("has", [("r", s), ("v", c)], pairs),
+                                 ("number_of_cards", [("r", s)], [{"s": x} for x in sets]), ("is_single_card", [("r", s)], [{"s": x} for x in sets]),
+                                 ("is_valid", [("r", s)], [{"s": x} for x in sets])):
+            key, sty = ctx.method("u64", nm, BC)
+            sm_ = ctx.summ(key, params, sty)
+            panic_free(ctx, "C15.no-panic", sm_, envs, False, nm)
+    ctx.guard("C15.no-panic", ops_total)
 
     ctx.guard("C15.peel", check_peel, ctx, "C15.peel")
 
@@ -1049,7 +1112,8 @@ def check_C16(ctx):
         except Uncertified as u:
             rep.note("count table skipped: %s" % u.what)
         rep.sample({"rule": "C16", "two_bit_values": 2016, "example": {"set": hex((1 << 51) | (1 << 0)), "result": "Ok([ACE_SPADES, DEUCE_CLUBS])"}})
-    ctx.guard("C16.conversion", conv)
+    with ctx.total("C16.no-panic"):
+        ctx.guard("C16.conversion", conv)
     ctx.guard("C16.peel", check_peel, ctx, "C16.peel")
 
 
